@@ -42,6 +42,7 @@ type GenOpts struct {
 	WOp                [8]int // weights by op kind (OpResolve..OpFromContext)
 	PProbeUnregistered int
 	PFocus             int // per-mille: all Resolve ops of the run target one identity on one handle
+	PCloseStorm        int // per-mille: every client ends its program by closing the provider (overlapping Close calls)
 	PTree              int // per-mille: client 0 starts with a scope-tree template (parent, 2-3 children, resolutions, Close(parent))
 	PShuffleRegs       int // per-mille: registration calls are issued in a permuted order
 	MaxScopeDepth      int
@@ -663,6 +664,11 @@ func (g *gen) genPrograms(m *Model) [][]Op {
 				op.CtxKind = g.n(StOps, nCtxKinds)
 			}
 			progs[ti] = append(progs[ti], op)
+		}
+	}
+	if g.p(StOps, o.PCloseStorm) {
+		for ti := range progs {
+			progs[ti] = append(progs[ti], Op{Kind: OpClose, HSel: 0})
 		}
 	}
 	return progs
